@@ -86,6 +86,10 @@ pub struct Opts {
     /// the `Config` object has a past: every boolean setter is first called with the inverted value, then with the value under
     /// test (a front-end keeps one Config object and flips options on it)
     pub churn: bool,
+    /// the context was created for the OTHER method (phonetic <-> Probhat) with the same options and data directory, composed one
+    /// word there, and was then switched to the layout under test by update-engine: whatever is loaded once per context was loaded
+    /// under another layout
+    pub via_switch: bool,
 }
 
 impl Opts {
@@ -108,6 +112,7 @@ impl Opts {
             reversed_setters: false,
             via_update: false,
             churn: false,
+            via_switch: false,
         }
     }
     pub fn fixed(layout: &str, db: &str, xdg: &str) -> Opts {
@@ -129,6 +134,7 @@ impl Opts {
             reversed_setters: false,
             via_update: false,
             churn: false,
+            via_switch: false,
         }
     }
     pub fn is_phonetic(&self) -> bool {
@@ -165,7 +171,7 @@ impl Opts {
             "english": self.english, "psugg": self.psugg, "fsugg": self.fsugg,
             "vowel": self.vowel, "chandra": self.chandra, "kar": self.kar, "reph": self.reph,
             "numpad": self.numpad, "karorder": self.karorder, "ansi": self.ansi, "smart": self.smart,
-            "reversed_setters": self.reversed_setters, "via_update": self.via_update, "churn": self.churn
+            "reversed_setters": self.reversed_setters, "via_update": self.via_update, "churn": self.churn, "via_switch": self.via_switch
         })
     }
     pub fn from_json(v: &Value) -> Opts {
@@ -189,6 +195,7 @@ impl Opts {
             reversed_setters: b("reversed_setters"),
             via_update: b("via_update"),
             churn: b("churn"),
+            via_switch: b("via_switch"),
         }
     }
     /// Short label of the boolean options for evidence/feature strings.
@@ -222,6 +229,9 @@ impl Opts {
         }
         if self.churn {
             s.push_str("+(used Config object)");
+        }
+        if self.via_switch {
+            s.push_str("+(switched from the other method)");
         }
         s
     }
@@ -657,6 +667,20 @@ impl Ctx {
             guard(|| {
                 let mut c = RitiContext::new_with_config(&cfg0);
                 // a used context: one word (an emoji name in phonetic mode) composed and ended under the old options
+                for ch in "help".chars() {
+                    let _ = c.get_suggestion_for_key(crate::keys::code_for_char(ch).unwrap(), 0, 0);
+                }
+                c.finish_input_session();
+                c.update_engine(&cfg);
+                c
+            })?
+        } else if opts.via_switch {
+            let mut other = opts.clone();
+            other.via_switch = false;
+            other.layout = if opts.is_phonetic() { probhat() } else { PHONETIC.to_string() };
+            let cfg0 = other.to_config();
+            guard(|| {
+                let mut c = RitiContext::new_with_config(&cfg0);
                 for ch in "help".chars() {
                     let _ = c.get_suggestion_for_key(crate::keys::code_for_char(ch).unwrap(), 0, 0);
                 }
